@@ -11,7 +11,7 @@ from common import hexs, unhexs, rng
 import cifdesc
 
 FAMILY = "store"
-HARNESS = {"source": "x_store.c", "leak_clean": True}
+HARNESS = {"source": "x_store.c", "leak_clean": True, "extra_sources": ["x_store_body.h", "cifio.h"]}
 RULE = ("random API histories (quick: <= 40 ops, thorough: <= 120 ops) over <= 3 CIFs, <= 4 blocks, frame nesting <= 3, "
         "names from a small pool with case/normalisation variants and invalid forms, live and stale handles, ~50% of the "
         "ops constructed to fail (each failure kind x each offending position), some inside an open iterator; "
@@ -23,7 +23,7 @@ DUP_BLOCK, INVALID_BLOCK, NOSUCH_BLOCK, DUP_FRAME, INVALID_FRAME, NOSUCH_FRAME =
 CAT_NOT_UNIQUE, INVALID_CATEGORY, NOSUCH_LOOP, RESERVED_LOOP, WRONG_LOOP, EMPTY_LOOP, NULL_LOOP = 31, 32, 33, 34, 35, 36, 37
 DUP_ITEM, INVALID_ITEM, NOSUCH_ITEM, AMBIGUOUS_ITEM, INVALID_PACKET = 41, 42, 43, 44, 52
 
-F30_CLASS = "add_packet-omitted-items-not-stored"
+F30_CLASS = None      # F30 (packets that omit items) is repaired in /repo (e266ec6): a recurrence is a violation
 F32_CLASS = "set_category-null-takes-scalar-category"   # F34, fixed by 95b7b25: no open entry any more
 
 
@@ -436,6 +436,31 @@ class History:
             if e is not None and e[1] == h:
                 self.lhs[i] = None
 
+    def emit_next(self, it, l):
+        """cif_pktitr_next_packet — without a packet of the caller's, or with one that is empty / holds a subset of the loop's
+        names / holds foreign names too / spells the names differently; then the packet is asked for every name of the loop"""
+        r = self.r
+        k = r.random()
+        if k < 0.45:
+            self.op("itnext", it)
+            return
+        keys = list(l.names.keys())
+        variants = lambda kk: [x for x in ITEMS_OK if norm(x) == kk] or [l.names[kk]]
+        if k < 0.55:
+            mine = []
+        elif k < 0.7:
+            r.shuffle(keys); mine = [r.choice(variants(kk)) for kk in keys[:r.randint(1, len(keys))]]
+        elif k < 0.85:
+            r.shuffle(keys); mine = [r.choice(variants(kk)) for kk in keys[:r.randint(0, len(keys))]] + ["_zz", "_yy.1"][:r.randint(1, 2)]
+            r.shuffle(mine)
+        else:
+            mine = [r.choice(variants(kk)) for kk in keys]
+        toks = []
+        for nme in mine:
+            toks += [name_tok(nme, True)] + self.value()
+        probes = [r.choice(variants(kk)) for kk in l.names] + ["_zz"]
+        self.op("itnextp", it, len(mine), *(toks + [len(probes)] + [name_tok(x, True) for x in probes]))
+
     def g_iter(self):
         """open an iterator, make a few calls (iterator calls and calls on OTHER containers), close or abort"""
         r = self.r
@@ -451,7 +476,7 @@ class History:
         for step in range(r.randint(1, 7)):
             k = r.random()
             if k < 0.35 or (step == 0 and k < 0.85):
-                self.op("itnext", it)
+                self.emit_next(it, l)
             elif k < 0.5:
                 keys = list(l.names.keys()); r.shuffle(keys)
                 keys = keys[:r.randint(1, len(keys))]
@@ -563,7 +588,7 @@ class History:
             it = len(self.its)
             self.its.append(None)
             for _ in range(r.randint(1, 3)):
-                self.op("itnext", it)
+                self.emit_next(it, l)
                 k = r.random()
                 if k < 0.5:
                     self.op("itrem", it); l.npk = max(0, l.npk - 1)
@@ -953,6 +978,8 @@ def parse_request(req):
             d["i"] = int(tok())
         elif o == "itupd":
             d["i"] = int(tok()); d["pkt"] = packet()
+        elif o == "itnextp":
+            d["i"] = int(tok()); d["pkt"] = packet(); m = int(tok()); d["probes"] = [name() for _ in range(m)]
         else:
             raise ValueError("unknown op " + o)
         ops.append(d)
@@ -1065,7 +1092,7 @@ def parse_answer(ans):
 # the oracle: C04 / C05 on the implementation's observation
 
 QUERIES = {"blocks", "frames", "code", "isblock", "loops", "getval", "getcat", "names", "catloop", "itemloop", "getblock",
-           "getframe", "itnext"}
+           "getframe", "itnext", "itnextp"}
 
 
 def find_path(cif, path):
@@ -1478,7 +1505,7 @@ def shrink(req):
 
 OPWORDS = {"cif+", "cif-", "mkblock", "getblock", "blocks", "mkframe", "getframe", "frames", "cdestroy", "code", "isblock", "mkloop",
            "catloop", "itemloop", "loops", "prune", "getval", "setval", "rmitem", "ldestroy", "getcat", "setcat", "names", "additem",
-           "addpkt", "itopen", "itnext", "itupd", "itrem", "itclose", "itabort"}
+           "addpkt", "itopen", "itnext", "itnextp", "itupd", "itrem", "itclose", "itabort"}
 
 
 def _op_end(t, pos):
